@@ -359,7 +359,7 @@ def cprop_scenario(seed):
 
     deco = L.cached_property(TLock) if uselock else L.cached_property
 
-    class Res:
+    class ResBase:
         def __init__(self, idx):
             object.__setattr__(self, "idx", idx)
 
@@ -367,6 +367,9 @@ def cprop_scenario(seed):
             raise AttributeError(f"cannot assign to field {name!r}")
 
         attr = deco(getter)
+
+    class Res(ResBase):        # the property is inherited: instances are of a subclass of the class that defines it
+        pass
 
     insts = {i: Res(i) for i in range(1, ninst + 1)}
 
